@@ -40,7 +40,8 @@ def gen_fasta(rng, nrec=None, widths=None, maxlen=240, crlf=None, final_nl=None,
                 break
         hdr = b">" + (b" " if rng.random() < 0.05 else b"") + name.encode()
         if rng.random() < 0.3:
-            hdr += rng.choice([b" some description", b"\tlen=12 x", b" "])
+            # (descriptions are free text in any encoding: Latin-1 bytes, byte-order marks; only the name is the index's)
+            hdr += rng.choice([b" some description", b"\tlen=12 x", b" ", b" Caf\xe9 au lait", b"\tsource=\xff\xfe1"])
         body = nl.join(seq[j : j + w] for j in range(0, len(seq), w))
         data += hdr + nl + body + nl
         if r < nrec - 1 and rng.random() < 0.08:
